@@ -22,7 +22,7 @@ OPN = ["Set", "Get", "Delete", "Reset", "Len", "ActiveLen"]
 
 def gen_case(rng, cid, profile, nops):
     ops = []
-    now = rng.choice([0, 0, 1000, 10 ** 6])
+    now = rng.choice([0, 0, 1000, 10 ** 6])  # < 2^27 for the packed encoding
     val = [0]
 
     def nv():
@@ -31,7 +31,7 @@ def gen_case(rng, cid, profile, nops):
 
     if profile == "churn":
         ttl = rng.choice([3, 5, 10, 20])
-        keys = list(range(rng.choice([2, 4, 6])))
+        keys = list(range(1, 1 + rng.choice([2, 4, 6])))
         w = [(SET, 45), (GET, 28), (DEL, 12), (RESET, 1), (LEN, 4), (ALEN, 10)]
     elif profile == "dedup":
         ttl = rng.choice([4, 8, 30])
@@ -39,7 +39,7 @@ def gen_case(rng, cid, profile, nops):
         w = [(SET, 60), (GET, 25), (DEL, 3), (RESET, 0), (LEN, 4), (ALEN, 8)]
     elif profile == "holes":
         ttl = rng.choice([6, 12, 25])
-        keys = list(range(12))
+        keys = list(range(1, 13))
         w = [(SET, 40), (GET, 25), (DEL, 25), (RESET, 1), (LEN, 3), (ALEN, 6)]
     elif profile == "refresh":
         ttl = rng.choice([5, 9, 15])
@@ -47,11 +47,11 @@ def gen_case(rng, cid, profile, nops):
         w = [(SET, 65), (GET, 25), (DEL, 4), (RESET, 0), (LEN, 2), (ALEN, 4)]
     elif profile == "edge":
         ttl = rng.choice([0, -3, 1, 1, 2])
-        keys = list(range(3))
+        keys = list(range(1, 4))
         w = [(SET, 45), (GET, 30), (DEL, 8), (RESET, 6), (LEN, 4), (ALEN, 7)]
     else:  # nonmono
         ttl = rng.choice([5, 10])
-        keys = list(range(5))
+        keys = list(range(1, 6))
         w = [(SET, 45), (GET, 30), (DEL, 10), (RESET, 2), (LEN, 3), (ALEN, 10)]
     codes = [c for c, n in w for _ in range(n)]
     fresh = [100]
@@ -59,7 +59,7 @@ def gen_case(rng, cid, profile, nops):
     for _ in range(nops):
         r = rng.random()
         if profile == "nonmono" and r < 0.15:
-            now -= rng.randint(1, ttl + 2)
+            now = max(0, now - rng.randint(1, ttl + 2))
         elif r < 0.40:
             pass
         elif r < 0.75:
@@ -177,27 +177,32 @@ def shrink(c, ctx_run):
     return c
 
 
+def pack_op(o):
+    code, now, k, v = o
+    assert (1 <= k < 4096 or code in (RESET, LEN, ALEN)) and 0 <= v < 2 ** 20 and 0 <= now < 2 ** 27
+    return ((now * 2 ** 20 + v) * 4096 + k) * 8 + code
+
+
 def coq_cases(cases, outs):
-    def opz(o):
-        code, now, k, v = o
-        t = {SET: "OSet %s %s" % (zlit(k), zlit(v)), GET: "OGet %s" % zlit(k), DEL: "ODelete %s" % zlit(k), RESET: "OReset", LEN: "OLen", ALEN: "OActiveLen"}[code]
-        return "(%s, %s)" % (zlit(now), t)
-    items = []
+    """Uint63 literals (parsed natively, ~10x cheaper than Z literals): one packed number per operation and one
+    hash per observed step"""
+    defs, names = [], []
     for c, out in zip(cases, outs):
         n = len(out["steps"])
-        h = "; ".join(opz(o) for o in c["ops"][:n])
-        ob = "; ".join("((%s,%s),(%s,%s,%s,%s,%s))" % tuple(zlit(x) for x in (st["r"] + st["o"])) for st in out["steps"])
-        items.append("(%d%%nat, %s, [%s], [%s])" % (c["id"], zlit(c["ttl"]), h, ob))
-    return items
+        defs.append("Definition h%d : list int := [%s]%%list.\nDefinition o%d : list int := [%s]%%list." % (
+            c["id"], "; ".join(str(pack_op(o)) for o in c["ops"][:n]), c["id"], "; ".join("%d; %d" % (st["h"][0], st["h"][1]) for st in out["steps"])))
+        names.append("(%d%%nat, %s, h%d, o%d)" % (c["id"], zlit(c["ttl"]) + "%Z", c["id"], c["id"]))
+    return "\n".join(defs), "; ".join(names)
 
 
-COQ_TMPL = """From Coq Require Import ZArith.
+COQ_TMPL = """From Coq Require Import ZArith Uint63.
 From stdpp Require Import gmap.
 From GV Require Import C48.Model.
-Open Scope Z_scope.
-Definition cases : list (nat * Z * list (Z * op) * list ((Z * Z) * (Z * Z * Z * Z * Z))) := [%s].
+Open Scope uint63_scope.
+%s
+Definition cases : list (nat * Z * list int * list int) := [%s]%%list.
 Definition bad := omap (fun c => match c with (id, ttl, h, ob) =>
-   match first_mismatch ttl 0 h ob init with Some i => Some (id, i) | None => None end end) cases.
+   match first_mismatch ttl 0 (map Uint63.to_Z h) (map Uint63.to_Z ob) init with Some i => Some (id, i) | None => None end end) cases.
 Definition summary := (length cases, length bad, firstn 5 bad).
 Eval vm_compute in summary.
 """
@@ -275,8 +280,7 @@ def run(ctx):
         ctx.tie_broken("C48/Model.v does not compile", mout)
     elif outs:
         good = [(c, o) for c, o in zip(cases, outs) if o.get("steps")]
-        items = coq_cases([c for c, _ in good], [o for _, o in good])
-        rc2, o2 = ctx.coq_eval("cases_C48", COQ_TMPL % ";\n".join(items))
+        rc2, o2 = ctx.coq_eval("cases_C48", COQ_TMPL % coq_cases([c for c, _ in good], [o for _, o in good]))
         flat = " ".join(o2.split())
         m_ = re.search(r"= \((\d+)%nat, (\d+)%nat, (\[.*?\])\)", flat)
         if rc2 != 0 or not m_:
